@@ -140,6 +140,39 @@ def check(run):
             run.gap_case("large-ell-laws", (la, lb, ell), f"large|{la}*{lb}")
             if report("homomorphism", ell, float(np.max(np.abs(BD[la][ell] @ BD[lb][ell] - C[ell]))), {"R1": list(Ra), "R2": list(Rb), "ell_max": LB}, f"{la}*{lb}"):
                 break
+    # calculators whose range starts at ell_min > 0, and the module-level wrapper: every law on every stored block
+    smallR = [("generic", generic[0][1] if generic else (0.5, 0.5, 0.5, 0.5)), ("rational2", (0.6, 0.0, 0.8, 0.0)), ("near-pole-1e-9", extra_np[0][1])]
+    for emin in ((1, 2, 3, 5) if quick else range(1, 9)):
+        wm = spherical.Wigner(8, ell_min=emin)
+
+        def blk(R, wm=wm, emin=emin):
+            D = wm.D(quaternionic.array(R))
+            return {ell: D[wm.Dindex(ell, -ell, -ell):wm.Dindex(ell, -ell, -ell) + (2 * ell + 1) ** 2].reshape(2 * ell + 1, 2 * ell + 1) for ell in range(emin, 9)}
+        Bs = {lab: blk(R) for lab, R in smallR}
+        I0 = blk(ident)
+        Dw = spherical.wigner_D(quaternionic.array(smallR[0][1]), emin, 8)
+        if not np.array_equal(Dw, wm.D(quaternionic.array(smallR[0][1]))):
+            run.violation("law-fails:wrapper", "wigner_D", {"ell_min": emin, "ell_max": 8, "R": list(smallR[0][1])}, "Wigner(8, ell_min).D", "differs")
+        for ell in range(emin, 9):
+            n = 2 * ell + 1
+            run.gap_case("ell_min-calculators", (emin, ell), f"ell_min={emin}")
+            inp0 = {"calculator": {"ell_min": emin, "ell_max": 8}}
+            if report("identity", ell, float(np.max(np.abs(I0[ell] - np.eye(n)))), {**inp0, "R": list(ident)}, "identity"):
+                break
+            bad = False
+            for lab, R in smallR:
+                B = Bs[lab][ell]
+                Bi = blk((R[0], -R[1], -R[2], -R[3]))[ell]
+                if report("unitary", ell, float(np.max(np.abs(B @ B.conj().T - np.eye(n)))), {**inp0, "R": list(R)}, lab) or \
+                   report("inverse-dagger", ell, float(np.max(np.abs(Bi - B.conj().T))), {**inp0, "R": list(R)}, lab):
+                    bad = True
+                    break
+            if bad:
+                break
+            (la, Ra), (lb, Rb) = smallR[0], smallR[1]
+            C = blk(qmul(Ra, Rb))[ell]
+            if report("homomorphism", ell, float(np.max(np.abs(Bs[la][ell] @ Bs[lb][ell] - C))), {**inp0, "R1": list(Ra), "R2": list(Rb)}, f"{la}*{lb}"):
+                break
     run.notes["worst_over_(ell+1)eps"] = {k: round(v, 4) for k, v in worst.items()}
     run.assumptions += ["homomorphism, unitarity, inverse, negation, identity and conjugation symmetry are proved in exact arithmetic for every ell (HomAll.D_*_all); the (ell+1) eps deviation bounds are swept, not proved",
                         "bounds are fixed multiples of (ell+1) eps, >= 8x the worst deviation measured on the pinned tree"]
